@@ -283,8 +283,9 @@ class Interp:
         if k == "let":
             v = self.ev(st["init"], env) if st.get("init") is not None else sym("uninit")
             if not self.bind(st["pat"], v, env):
-                if st.get("else") is not None:
-                    self.ev(st["else"], env)
+                els = st.get("els") if st.get("els") is not None else st.get("else")
+                if els is not None:
+                    self.ev(els, env)          # the else block of `let .. else` diverges (return / break)
                 raise Unknown("refutable let did not match")
             return
         if k == "semi":
